@@ -365,7 +365,7 @@ def strategy():
 def run_shard(ctx):
     argspec.self_test()
     stats = core.Stats()
-    n = 6000 if ctx.tier == "thorough" else 700
+    n = 40000 if ctx.tier == "thorough" else 700
     core.hyp_search(strategy(), lambda c: execute(c, ctx.scratch), stats, max_examples=n,
                     seed=core.hash64(ctx.seed, ID, ctx.shard), findings=ctx.findings,
                     deadline_s=(ctx.deadline - time.time()) if ctx.deadline else None)
